@@ -24,12 +24,13 @@ RULE = ('configurations = every subset (size <=S) of {--gc 5, --gc 5 3 2, -G '
 ASSUMPTIONS = [
     'signal handlers (pdb installs a SIGINT handler) and logging handlers are not part of the stated state',
 ]
-BOUND = {'quick': 'subsets of size <=3 (232) x 13 endings', 'thorough': 'all 2048 subsets x 13 endings'}
+BOUND = {'quick': 'subsets of size <=3 (232) x 15 endings', 'thorough': 'all 2048 subsets x 15 endings'}
 CHUNK = 8
 
 OPTS = ['gc1', 'gc3', 'G', 'cov', 'prof', 'buf', 'warn', 'D', 'gcat', 'list', 'path2']
 ENDS = ['normal', 'fail', 'hookS', 'hookD', 'kbint', 'kbint_setup', 'x', 'sysexit_layer',
-        'warnfilter', 'leave_replaced', 'settrace', 'layer_swaps', 'layer_unpaths']
+        'warnfilter', 'leave_replaced', 'settrace', 'layer_swaps', 'layer_unpaths',
+        'garbage_small', 'garbage_big']
 
 
 def cases(tier, seed):
@@ -79,6 +80,11 @@ def build(end):
         A['sw'] = True
     elif end == 'layer_unpaths':
         A['unpath'] = True
+    elif end == 'garbage_small':
+        q1 = 'garbage:50'
+    elif end == 'garbage_big':
+        # more cyclic garbage than any "small" limit (4096, 10000 ...)
+        q1 = 'garbage:20000'
     elif end == 'settrace':
         # a well-behaved test that installs a trace function and removes it
         q1 = 'settrace'
